@@ -44,7 +44,7 @@ func EncryptionKeyOrGenerate(cfg *config.Config) ([]byte, error) {
 		}
 	}
 
-	if len(key) == 0 {
+	if len(cfg.EncryptionKey) == 0 {
 		log.Warn("no encryption key was provided, generating a random ephemeral key; sessions will not be able to be decrypted after restart")
 		key, err = keygen.Keygen(KeySize)
 		if err != nil {
